@@ -318,6 +318,84 @@ let wr_spec head toks obs =
       !res
     with Failure m -> "FAIL malformed-observable " ^ m
 
+(* ------------------------------------------------------------------ wired, with the real address source
+   The address book only decides WHETHER a slot can be filled (at least as many outbound groups as the
+   target); which address is picked is not observed.  Through the ConnMgr script layer: every request
+   gets an address and connects; a remote close is a Disconnect followed by address + connection. *)
+let wa_parse toks =
+  let groups = Hashtbl.create 8 in
+  let bad = ref false in
+  let rest = Stdlib.List.filter (fun e ->
+      if String.length e >= 2 && e.[0] = 'a' then begin
+        (match split_on '.' (String.sub e 1 (String.length e - 1)) with
+         | [g; i; fl] when String.length fl = 2 && (fl.[0] = 'd' || fl.[0] = 'n') && (fl.[1] = 'f' || fl.[1] = 'r') ->
+           (try let g = strict_int g and i = strict_int i in
+              if g < 0 || g > 99 || i < 0 || i > 99 then bad := true else Hashtbl.replace groups g ()
+            with _ -> bad := true)
+         | _ -> bad := true);
+        false
+      end else true) toks in
+  (Hashtbl.length groups, rest, !bad)
+
+let wa_digest (s : ConnMgr.cst) =
+  Printf.sprintf "o%d/c%d/n%d" (sl s.ConnMgr.conns) (sl s.ConnMgr.conns) (iz s.ConnMgr.dials)
+
+let wa_model head toks =
+  let t = head_int head "t" 0 and mf = head_int head "mf" 0 in
+  let (ng, rest, bad) = wa_parse toks in
+  if bad || t < 1 || t > 8 then "BAD-INPUT"
+  else if ng < t then "UNDERDETERMINED"
+  else begin
+    let x = ref (ConnMgr.sinit (zi t) (zi mf) true) in
+    let seq = ref 0 in
+    let app ev = let (x', ok) = ConnMgr.sstep !x ev in x := x'; ok in
+    let connect () = incr seq; let a = zi !seq in if app (ConnMgr.SG a) then ignore (app (ConnMgr.SK a)) in
+    for _ = 1 to t do connect () done;
+    let out = ref [ "s:" ^ wa_digest (ConnMgr.core !x) ] in
+    Stdlib.List.iter (fun e ->
+        let tag =
+          if String.length e >= 2 && e.[0] = 'X' then
+            (match (try Some (strict_int (String.sub e 1 (String.length e - 1))) with _ -> None) with
+             | Some k when k >= 0 -> if app (ConnMgr.SD (zi k)) then (connect (); "X") else "-"
+             | _ -> "?")
+          else "?" in
+        out := (tag ^ ":" ^ wa_digest (ConnMgr.core !x)) :: !out) rest;
+    out := ("e:" ^ wa_digest (ConnMgr.core !x)) :: !out;
+    join " " (Stdlib.List.rev !out)
+  end
+
+(* oracle: with an address book that offers at least as many outbound groups as the target, the
+   manager reaches TargetOutbound and is back at TargetOutbound after every remote close *)
+let wa_spec head toks obs =
+  let t = head_int head "t" 0 in
+  let (ng, rest, bad) = wa_parse toks in
+  if obs = "BAD-INPUT" then (if bad || t < 1 || t > 8 then "OK" else "FAIL malformed-observable")
+  else if obs = "UNDERDETERMINED" then (if ng < t then "OK" else "FAIL malformed-observable")
+  else
+    let ws = words obs in
+    if sl ws <> sl rest + 2 then
+      (if sl ws >= 1 && Stdlib.List.hd ws = "LIMITS" then "FAIL case-limits-differ the case names another threshold than the compiled one"
+       else "FAIL malformed-observable word count")
+    else
+      try
+        let res = ref "OK" in
+        Stdlib.List.iteri (fun idx w ->
+            if !res = "OK" then
+              match Stdlib.String.index_opt w ':' with
+              | None -> failwith "word"
+              | Some i ->
+                let d = String.sub w (i + 1) (String.length w - i - 1) in
+                (match split_on '/' d with
+                 | [o; c; _] ->
+                   let num s = strict_int (String.sub s 1 (String.length s - 1)) in
+                   (match int_of_nat (ConnMgr.cm_check (zi t) (zi (num o)) (zi 0) (zi 0) (zi 0)) with
+                    | 0 -> if num c <> num o then res := Printf.sprintf "FAIL connected-differs-from-open step %d: %s" idx d
+                    | 1 -> res := Printf.sprintf "FAIL above-target step %d: %s" idx d
+                    | _ -> res := Printf.sprintf "FAIL outbound-target-not-reached step %d: %s (target %d, %d outbound groups on offer): the manager did not get back to the target within the bound" idx d t ng)
+                 | _ -> failwith "digest")) ws;
+        !res
+      with Failure m -> "FAIL malformed-observable " ^ m
+
 (* ------------------------------------------------------------------ *)
 let split_case input =
   match split_on ';' input with
@@ -329,6 +407,7 @@ let model input =
   | ("adm" :: _ as head), toks -> adm_model head toks
   | ("cm" :: _ as head), toks -> cm_model head toks
   | ("wr" :: _ as head), toks -> wr_model head toks
+  | ("wa" :: _ as head), toks -> wa_model head toks
   | _ -> "BAD-INPUT"
 
 let spec input obs =
@@ -336,6 +415,7 @@ let spec input obs =
   | ("adm" :: _ as head), toks -> adm_spec head toks obs
   | ("cm" :: _ as head), toks -> cm_spec head toks obs
   | ("wr" :: _ as head), toks -> wr_spec head toks obs
+  | ("wa" :: _ as head), toks -> wa_spec head toks obs
   | _ -> if obs = "BAD-INPUT" then "OK" else "FAIL malformed-observable"
 
 let () = run_driver model spec
